@@ -1,4 +1,4 @@
-From CRNG Require Import Base.ListX Base.Bytes Lib.Regex Model.Matcher Model.Table Check.Common Check.TableCheck.
+From CRNG Require Import Base.ListX Base.Bytes Lib.Regex Model.Matcher Model.Table Proofs.PrefixSound Check.Common Check.TableCheck.
 
 (* one observed name: (name, (Match, PreMatch), (Go regexp on regex, on notRegex)) *)
 Definition m_obs : Type := bytes * (bool * bool) * (bool * bool).
@@ -39,7 +39,11 @@ Definition matcher_verdict (c : matcher_case) : N :=
   if v =? 0 then
     if beqb (match m_regex (mc_m c) with Some r => regex_to_prefix (rx_src r) | None => [] end) (mc_prefix c)
        && beqb (match m_notRegex (mc_m c) with Some r => regex_to_prefix (rx_src r) | None => [] end) (mc_notprefix c)
-    then 0 else 1
+    then
+      (* the regexes satisfy the side condition of C03_match_is_conjunction: the prefix found in the text is an
+         initial part of the prefix the syntax tree forces (Proofs/PrefixSound.v) *)
+      if negb (mc_has_ast c) || (opt_prefix_ok (m_regex (mc_m c)) && opt_prefix_ok (m_notRegex (mc_m c))) then 0 else 1
+    else 1
   else v.
 
 Inductive c03_case := CM (c : matcher_case) | CT (c : table_case).
